@@ -777,6 +777,33 @@ func init() {
 		a[0] = int64(0x42)
 		return a
 	})
+	uuidBytes := func(w *World) []Value {
+		n, _ := w.userData["uuid"].(int)
+		n++
+		w.userData["uuid"] = n
+		a := make([]Value, 16)
+		for i := range a {
+			a[i] = int64(0)
+		}
+		a[0], a[6], a[8] = int64(0x56), int64(0x40), int64(0x80)
+		a[14], a[15] = int64(n>>8&0xff), int64(n&0xff)
+		return a
+	}
+	reg("github.com/pborman/uuid.NewUUID", func(w *World, th *Thread, fn *ssa.Function, args []Value) Value {
+		return Slice{a: uuidBytes(w)}
+	})
+	reg("github.com/pborman/uuid.NewRandom", func(w *World, th *Thread, fn *ssa.Function, args []Value) Value {
+		return Slice{a: uuidBytes(w)}
+	})
+	reg("github.com/google/uuid.New", func(w *World, th *Thread, fn *ssa.Function, args []Value) Value {
+		return Array(uuidBytes(w))
+	})
+	reg("github.com/google/uuid.NewString", func(w *World, th *Thread, fn *ssa.Function, args []Value) Value {
+		n, _ := w.userData["uuid"].(int)
+		n++
+		w.userData["uuid"] = n
+		return fmt.Sprintf("56000000-0000-4000-8000-%012d", n)
+	})
 	reg(modPath+"/common/utils/uid.New", func(w *World, th *Thread, fn *ssa.Function, args []Value) Value {
 		n, _ := w.userData["uid"].(int)
 		n++
